@@ -275,7 +275,10 @@ def filter_lines(rep, rnd, tier):
     # failing operations that exist only while a packet is being processed: a layer index beyond the deepest possible
     # layer, a header field assigned a value of the wrong kind, a field of a layer the frame does not have
     only_here = {"dollar-depth-11": "$11;", "dollar-depth-40": "let z = $40;", "dollar-depth-computed": "let d = 3 * 5; $d;",
-                 "field-kind": "($2).ttl = \"x\";", "field-of-error": "let e = ($3).nosuchlayer;"}
+                 "field-kind": "($2).ttl = \"x\";", "field-of-error": "let e = ($3).nosuchlayer;",
+                 "eth-src-kind": "($1).src = 5;", "eth-dst-text": "($1).dst = \"zz\";", "eth-type-range": "($1).type = 65536;",
+                 "ipv4-src-text": "($2).src = \"1.2.3\";", "ipv4-id-kind": "($2).id = true;", "tcp-port-kind": "($3).srcport = \"x\";",
+                 "pkt-caplen-kind": "($0).caplen = \"x\";"}
     for kind, stmt_text in only_here.items():
         if kind == "field-of-error":
             continue        # (a parse error: not a runtime failure)
